@@ -93,6 +93,10 @@ SP_DEVS = [['i', 'i', 'i'], ['t', 't', 't'], ['i', 'u', 'u'], ['u', 'i', 'u'], [
 BND_KINDS = [[a, v, c] for a in ('top3', 'bot3', 'botall', 'side1', 'side2') for v in ('zero', 'huge') for c in ('n', 'c')]
 BND_NAMES = ['bdy 1', 'bdy 2', 'bdy 3', 'zzz99', 'AAA 1', '  z 9', 'b   7', 'Q0001']
 BIG = (10, 12, 14)
+# >= 100 columns: with naming convention 2 (2-character layer + 3-digit column) these have block names that the
+# (a3,i2) reading of TOUGH2 spells differently in a data file (' a105' is written ' a1 5')
+WIDE = {'quick': [(10, 10), (11, 10)], 'thorough': [(10, 10), (11, 10), (10, 11), (12, 12)]}
+HIST = [[p, 'moved'] for p in ('flat', 'above', 'stair', 'slope', 'mid', 'down')] + [['flat', 'unmoved'], ['same', 'unmoved']]
 TOP, DOWN, MID, ABOVE = [0, 4], [1, 4], [0, 2], [0, 6]
 AVOL = {'d': 1.e25, 'z': 0.0, 'h': 1.e50}       # atmosphere volume of the generating geometry
 
@@ -201,6 +205,26 @@ def unit_cases(unit, tier):
         seen.add(key)
         return c
 
+    if kind == 'wide':
+        n = nx * ny
+        b = with_(base, sp=['i', 'i', 'u'], shift=1, rep=True)
+        surfs = ([TOP] * n, stair(nx, ny, nz), slope(nx, ny, nz))
+        for cs, cr in ((0, 0), (2, 2), (3, 3), (2, 0), (0, 2), (3, 2)):   # convention 1 has two digits for the column
+            for s in surfs:
+                for f in (False, True, 'mesh', 'binary'):
+                    c = emit(with_(b, cs=cs, cr=cr, surf=s, file=f))
+                    if c:
+                        yield c
+            for bnd in (['bot3', 'huge', 'c'], ['botall', 'zero', 'n']):
+                c = emit(with_(b, cs=cs, cr=cr, bnd=bnd, bname='Q0001', file=True))
+                if c:
+                    yield c
+            for h in (['flat', 'moved'], ['slope', 'moved']):
+                for s in surfs:
+                    c = emit(with_(b, cs=cs, cr=cr, surf=s, hist=h, angle=30))
+                    if c:
+                        yield c
+        return
     if kind == 'big':
         b = with_(base, sp=['g', 'g', 'g'], shift=1)
         for ang in (0, 30, 135):
@@ -290,6 +314,33 @@ def unit_cases(unit, tier):
                     c = emit(with_(base, shift=sh, file=f, bnd=bnd, surf=surf))
                     if c:
                         yield c
+    # H: histories of the generating geometry - the same geometry object was converted before, with another surface
+    # (every primer x every surface of the family), after or before it was rotated and moved
+    for s in surface_family(nx, ny, nz):
+        for ang in (0, 30):
+            for h in HIST:
+                c = emit(with_(base, shift=1, surf=s, angle=ang, hist=h))
+                if c:
+                    yield c
+    for h in HIST:
+        for upd in ({'avol': 'z'}, {'avol': 'h', 'file': True}, {'cs': 2, 'cr': 2}, {'cs': 1, 'cr': 3}, {'sp': ['i', 'i', 'i']}):
+            c = emit(with_(base, shift=1, surf=slope(nx, ny, nz), angle=30, hist=h, **upd))
+            if c:
+                yield c
+    # R: the observing operations (data file in each flavour, rectgeo, fromgeo of its result) leave the grid in memory
+    # as it was, and rectgeo applied to it again gives the same result; block names of every convention, boundary
+    # blocks whose names TOUGH2 reads as (a3,i2) differently ('Q0001')
+    for f in (False, True, 'mesh', 'binary'):
+        for cs, cr in ((0, 0), (1, 1), (2, 2), (3, 3), (2, 0), (0, 2)):
+            for surf in ([TOP] * (nx * ny), stair(nx, ny, nz)):
+                for bnd, bname in ((None, 'bdy 1'), (['bot3', 'huge', 'c'], 'Q0001'), (['side1', 'zero', 'n'], 'Q0001'),
+                                   (['botall', 'zero', 'n'], 'bdy 1')):
+                    for upd in ({}, {'avol': 'z', 'rmi': True}, {'hist': ['flat', 'moved'], 'angle': 30}):
+                        if upd and bnd:
+                            continue
+                        c = emit(with_(base, shift=1, file=f, cs=cs, cr=cr, surf=surf, bnd=bnd, bname=bname, rep=True, **upd))
+                        if c:
+                            yield c
     # D: a basal boundary block under a column that is ONE block high, next to that block's atmosphere connection.
     # Which of the two direction-3 neighbours the library meets first depends on the iteration order of a set
     # of name tuples; the boundary block's name is a dimension so that both orders occur under the fixed hash seed.
@@ -309,13 +360,14 @@ def units(tier):
     us = [('std', nx, ny, nz, atm) for (nx, ny, nz) in shapes(tier) for atm in (0, 1, 2)]
     if tier == 'thorough':
         us += [('big',) + BIG + (atm,) for atm in (0, 1, 2)]
+    us += [('wide', nx, ny, 2, atm) for (nx, ny) in WIDE[tier] for atm in (0, 1, 2)]
     return us
 
 
 def case_key(c):
     return repr((c['nx'], c['ny'], c['nz'], c['sp'], c['shift'], c['angle'], c['atm'], c['surf'], c['cs'], c['cr'],
                  c['bnd'], c['ob'], c['rmi'], c['file'], c.get('avol', 'd'), c.get('bname', 'bdy 1'),
-                 c.get('snap', 'default'), c.get('route', 'translate')))
+                 c.get('snap', 'default'), c.get('route', 'translate'), c.get('hist'), bool(c.get('rep'))))
 
 
 # ---------------------------------------------------------------------------------------------- one case
@@ -862,6 +914,8 @@ def check_grid(grid2, orig_blocks, orig_cons, colof, m, dxy, dz, rel):
 # ---------------------------------------------------------------------------------------------- signatures
 
 def shape_class(case):
+    if case['nx'] * case['ny'] >= 100 and (case['nx'], case['ny'], case['nz']) != BIG:
+        return 'columns>=100'
     if case['nx'] == 1:
         return 'nx=1'
     if case['ny'] == 1:
@@ -869,7 +923,10 @@ def shape_class(case):
     return 'nx,ny>=2'
 
 
-REVERT = [('file', lambda c, b: with_(c, file=False),
+REVERT = [('rep', lambda c, b: with_(c, rep=False), lambda c: 'observed-twice' if c.get('rep') else None),
+          ('hist', lambda c, b: with_(c, hist=None),
+           lambda c: 'history=converted-before(%s,%s)' % tuple(c['hist']) if c.get('hist') else None),
+          ('file', lambda c, b: with_(c, file=False),
            lambda c: ('file' if c['file'] is True else 'file=%s' % c['file']) if c['file'] else None),
           ('bname', lambda c, b: with_(c, bname='bdy 1'),
            lambda c: 'boundary-name-order' if c['bnd'] and c.get('bname', 'bdy 1') != 'bdy 1' else None),
